@@ -48,6 +48,7 @@ type Event struct {
 	Name  int     `json:"name,omitempty"`
 	Size  int64   `json:"size,omitempty"`
 	Fs    []Fault `json:"fs,omitempty"`
+	NilErr bool   `json:"nilerr,omitempty"` // monfail: the monitor channel carries nil (connection found dead) instead of an error
 	// pair: First is started and held inside the replicas (gate "write": every fake WriteAt, "http": every
 	// fake HTTP answer, "snap": every fake Snapshot) while Second is issued; then the gate opens
 	First  *Event `json:"first,omitempty"`
@@ -733,7 +734,12 @@ func (h *harness) exec(e Event, pendAdd map[int]int) (string, string) {
 			return "none", ""
 		}
 		before := atomic.LoadInt64(&h.feState)
-		pick.ch <- errors.New("ping failed")
+		// a failed ping arrives as an error, a connection that the rpc client found dead as nil
+		if e.NilErr {
+			pick.ch <- nil
+		} else {
+			pick.ch <- errors.New("ping failed")
+		}
 		h.awaitMonitor(before)
 		return "ok", ""
 	case "write":
